@@ -8,7 +8,7 @@ ID=$1; WT=$2; PATCH=$3; DEMO=$4; shift 4; CHECKS="$@"
 export CARGO_NET_OFFLINE=true
 OUT=/verif/seeded/$ID; mkdir -p $OUT
 cp "$PATCH" $OUT/patch.diff
-cp $WT/tests/$DEMO.rs $OUT/$DEMO.rs 2>/dev/null
+cp $WT/tests/$DEMO.rs $OUT/$DEMO.rs 2>/dev/null; [ -f "${PATCH%.patch}.notes.md" ] && cp "${PATCH%.patch}.notes.md" $OUT/SEED_NOTES.md
 cd $WT && git checkout -q -- src && git apply --check $OUT/patch.diff || { echo "PATCH DOES NOT APPLY"; exit 2; }
 FEAT="in_memory,rayon,tokio,futures,verif-hooks"
 demo() { timeout 600 cargo test --offline --features $FEAT --test $DEMO 2>&1 | grep -E "^test result|error(\[|:)" | head -3; }
